@@ -389,6 +389,8 @@ static void apply_transport(RunState &rs, int node, Frame &f) {
     std::vector<uint64_t> dup_delays;
     for (auto &m : p.mut) {
         if (m.node != node || m.dg != f.src_index) continue;
+        // faults stop when the quiet phase begins: a datagram that a talker held back until then travels unharmed
+        if (rs.quiet && p.prop != "C19") { w.count("fault.not_applied_in_quiet_phase"); continue; }
         if (m.kind == "drop") { dropped = true; w.count("fault.drop"); }
         else if (m.kind == "dup") { dup_delays.push_back(m.a); w.count("fault.dup"); }
         else if (m.kind == "stale") { dup_delays.push_back(m.a); w.count("fault.stale"); }
